@@ -225,7 +225,7 @@ PROPS = {
     'C04': dict(
         units=['value_cmp', 'value_arith', 'builtins'],
         not_covered=['the laws of the double order (IEEE comparison is uninterpreted: only that doubles are compared lhs to rhs is pinned)',
-                     'element-wise list equality and map equality (std::iter::zip / HashMap iteration have no Verus support: those two match arms are dropped, see rewrites)',
+                     'map equality (HashMap iteration / remove have no Verus support: that match arm is dropped, see rewrites); list equality IS under contract for lists whose element pairs are decided by the scalar rules (different lengths are never equal; equal exactly when every pair at the same position is), for lists holding doubles, containers, dyn objects or failures only "bool or error"; std::iter::zip is a materialized stand-in (pairs of equal indices in order, up to the shorter: assumed)',
                      'laws of the string/bytes/timestamp/duration orders are std\'s and chrono\'s Ord (assumed)'],
         assumptions=['sort: the comparator is ord; that slice::sort_by with a total order returns an ordered permutation is std\'s contract (not under contract here)'],
     ),
